@@ -51,7 +51,7 @@ const CAPS_ALL: &[Cap] = &[Cap::N(0), Cap::N(1), Cap::N(2), Cap::N(3), Cap::Unbo
 const PROBER: &[(K, u32)] = &[(K::Observe, 3), (K::TrySend, 2), (K::TrySendOpt, 1), (K::TryRecv, 2), (K::Drain, 1)];
 
 fn droppable() -> Vec<Pay> {
-    vec![Pay::Z0, Pay::ZA, Pay::P1, Pay::P4, Pay::P8, Pay::P16, Pay::P40, Pay::PR, Pay::PBIG, Pay::PA64]
+    vec![Pay::Z0, Pay::ZA, Pay::P1, Pay::P4, Pay::P8, Pay::P16, Pay::P40, Pay::PR, Pay::PBIG, Pay::PA64, Pay::PH]
 }
 
 pub fn profile(prop: &str, tier: &str) -> Profile {
@@ -165,7 +165,7 @@ pub fn profile(prop: &str, tier: &str) -> Profile {
                 (K::Drain, 1),
                 (K::TrySendRt, 1),
             ]),
-            pays: vec![Pay::P4, Pay::P16, Pay::P8, Pay::Z0],
+            pays: vec![Pay::P4, Pay::P16, Pay::P8, Pay::Z0, Pay::PH],
             max_sched: 128,
             ..base
         },
@@ -445,6 +445,9 @@ pub fn accepts(prop: &str, v: &Viol, ops: &[OpRec]) -> bool {
             "waiter_survived_close",
             "not_released",
         ]) || (p == "stuck_illegit" && v.detail.contains("the channel is closed"))
+            // "the first close() succeeds": a close() that spins for ever does not
+            || ((p == "livelock" || p == "waited_inside_critical_section")
+                && opk.map_or(false, |o| o.k == K::Close))
             // the fate of values of operations that were pending at, or begun after, a close
             || (in_list(LEDGER_ALL) && {
                 let close_inv = ops
